@@ -78,6 +78,17 @@ def effect_sites(prog, ps):
 
 def run(ctx):
     run_structural(ctx)
+    run_panics(ctx)
+
+
+def run_panics(ctx):
+    from . import panic_common as PC
+    prog = ctx.prog()
+    entries = [prog.method("Tcb", m).key for m in ("segment_arrives", "advance_time", "segments", "send", "receive", "close", "open")] + \
+              [prog.one("protocols::tcp::tcb::segment_arrives_listen").key, prog.one("protocols::tcp::tcb::segment_arrives_closed").key,
+               prog.method("Tcp", "demux", "Protocol").key]
+    st = PC.scan(ctx, "P-PANIC", entries, lambda k: k.startswith("elvis_core::protocols::tcp"), PC.load_table("panic_c17.json"), stops=[K.SEND_PCI])
+    ctx.require(st["sites"] >= 25, "P-PANIC: only %d sites enumerated in the TCP scope" % st["sites"])
 
 
 def run_structural(ctx):
